@@ -9,7 +9,8 @@ import sys
 VERIF = os.path.dirname(os.path.dirname(os.path.abspath(__file__)))
 lo = int(sys.argv[1]) if len(sys.argv) > 1 else 1
 hi = int(sys.argv[2]) if len(sys.argv) > 2 else 999
-for d in sorted(glob.glob(os.path.join(VERIF, "seeded", "s*"))):
+prefix = sys.argv[3] if len(sys.argv) > 3 else "s"
+for d in sorted(glob.glob(os.path.join(VERIF, "seeded", prefix + "*"))):
     sid = os.path.basename(d)
     n = int(sid[1:3]) if sid[1:3].isdigit() else -1
     if not (lo <= n <= hi):
